@@ -1169,6 +1169,22 @@ pub fn run_program(p: &Program, prop: &str, canary: bool, log: bool) -> Outcome 
         std::thread::sleep(Duration::from_millis(20));
         (true, Vec::new())
     };
+    // A handle released on a pool thread closes its descriptor a moment after the operation is
+    // reported free (the release runs field by field): give outstanding closes a bounded grace
+    // period before the census; a descriptor that is really leaked stays open for ever.
+    let mut settled = settled;
+    if log {
+        let t0 = Instant::now();
+        loop {
+            let closed: std::collections::HashSet<u64> =
+                settled.iter().filter(|e| e.kind == verif::Kind::User && e.a == ev::FD_CLOSED).map(|e| e.b).collect();
+            if fd_ids.iter().all(|id| closed.contains(id)) || t0.elapsed() > Duration::from_secs(2) {
+                break;
+            }
+            std::thread::sleep(Duration::from_millis(5));
+            settled.extend(verif::drain());
+        }
+    }
     let had_pool_jobs = settled.iter().any(|e| e.kind == verif::Kind::Submit && e.b == 2);
     {
         let news: std::collections::HashSet<u64> = settled.iter().filter(|e| e.kind == verif::Kind::OpNew).map(|e| e.a).collect();
@@ -1271,6 +1287,34 @@ pub fn run_program(p: &Program, prop: &str, canary: bool, log: bool) -> Outcome 
         log: check::render(&events, &names, 400),
         counts,
     }
+}
+
+/// Wait (bounded) until every operation created so far has been released (a release that
+/// happens on a pool thread after its job ended may lag on a loaded machine).
+pub fn wait_ops_released(max: Duration) -> bool {
+    let t0 = Instant::now();
+    loop {
+        STASH.with(|s| s.borrow_mut().extend(verif::drain()));
+        let (news, frees) = STASH.with(|s| {
+            let s = s.borrow();
+            let news: std::collections::HashSet<u64> = s.iter().filter(|e| e.kind == verif::Kind::OpNew).map(|e| e.a).collect();
+            let frees = s.iter().filter(|e| e.kind == verif::Kind::OpFree && news.contains(&e.a)).count();
+            (news.len(), frees)
+        });
+        if frees >= news {
+            return true;
+        }
+        if t0.elapsed() > max {
+            return false;
+        }
+        std::thread::sleep(Duration::from_millis(2));
+    }
+}
+
+/// Did this program hand any job to the thread pool (from the stashed log)?
+pub fn had_pool_jobs() -> bool {
+    STASH.with(|s| s.borrow_mut().extend(verif::drain()));
+    STASH.with(|s| s.borrow().iter().any(|e| e.kind == verif::Kind::Submit && e.b == 2))
 }
 
 /// Forget the events stashed by `wait_pool_jobs` (start of a new program).
